@@ -12,7 +12,7 @@ res = {}
 try:
     for p in props:
         t0 = time.time()
-        r = subprocess.run(['python3', os.path.join(V, 'tools', 'check.py'), p, '--tier', 'quick'], capture_output=True, text=True, cwd=V)
+        r = subprocess.run(['python3', os.path.join(V, 'tools', 'check.py'), p, '--tier', 'quick'], capture_output=True, text=True, cwd=V, env=dict(os.environ, HB_EVIDENCE_DEV='1'))
         lines = [l for l in r.stdout.splitlines() if l.startswith('VIOLATION') or l.startswith('KNOWN-FINDING')]
         viol = [l for l in lines if l.startswith('VIOLATION')]
         what = []
